@@ -97,12 +97,12 @@ def handle1 (op : String) (args : List Sexp) : Option String := do
   | "nona-df", [x, e] =>
       let f ← frameOfVal (← Val.ofSexp x); let e ← edgeOf e
       pure (reply (nona e f) frameToVal)
-  | "nona-a1", [x, _e] =>
-      let c ← colOfVal (← Val.ofSexp x)
-      pure ("ok " ++ (colToVal ((nonaArr [c]).headD [])).render)
-  | "nona-a2", [x, _e] =>
-      let cs ← colsOfVal (← Val.ofSexp x)
-      pure ("ok " ++ (Val.list ((nonaArr cs).map colToVal)).render)
+  | "nona-a1", [x, e] =>
+      let c ← colOfVal (← Val.ofSexp x); let e ← edgeOf e
+      pure (reply (nonaArrE e [c]) fun cs => colToVal (cs.headD []))
+  | "nona-a2", [x, e] =>
+      let cs ← colsOfVal (← Val.ofSexp x); let e ← edgeOf e
+      pure (reply (nonaArrE e cs) fun cs => .list (cs.map colToVal))
   | _, _ => Option.none
 
 def handle (s : St) (op : String) (args : List Sexp) : Option (St × String) :=
